@@ -2,12 +2,12 @@ package extract
 
 import (
 	"fmt"
+	"os"
 	"os/exec"
+	"path/filepath"
 	"regexp"
 	"sort"
 	"strings"
-	"os"
-	"path/filepath"
 
 	"github.com/influxdata/influxql"
 )
